@@ -298,6 +298,8 @@ def run_frontend(frontend, table, config, workdir, form="iso", max_orders=3, rng
     ev = [{"ev": "load", "table": table, "config": config, "frontend": frontend}]
     # "<front end>+stale": the configuration also carries input-named parameters (inp, tinp, zinp, lat, lon)
     stale = table if frontend.endswith("+stale") else None
+    # "<front end>+again": the same stream object and the same Config object are run twice; the SECOND run is recorded
+    again = frontend.endswith("+again")
     frontend = frontend.split("+")[0]
     del PROBE_LOG[:]
     del RUN_LOG[:]
@@ -312,12 +314,15 @@ def run_frontend(frontend, table, config, workdir, form="iso", max_orders=3, rng
                     cd = cd["contexts"][0]["streams"][sid]          # {module: {test: kwargs}}
                 qc = qc_config.QcConfig(cd, default_stream_key=sid)
                 kw = {"inp": fl(table["data"][sid])}
+
                 if has_time(table):
                     kw["tinp"] = times(table)
                 if table["z"]:
                     kw["zinp"] = fl(table["z"])
                 if table["lat"]:
                     kw["lat"], kw["lon"] = fl(table["lat"]), fl(table["lon"])
+                if again:
+                    qc.run(**dict(kw, inp=kw["inp"][::-1].copy()))      # an earlier run of the same object on other data
                 res = qc.run(**kw)
             accD = [{"stream": sid, "fn": fn_of(mod, t), "flags": absflags(v)}
                     for mod, tests in res.items() for t, v in tests.items()]
@@ -330,6 +335,11 @@ def run_frontend(frontend, table, config, workdir, form="iso", max_orders=3, rng
     try:
         stream = make_stream(frontend, table, config, workdir)
         cfg = Config(config_dict(config, form, stale=stale))
+        if again:
+            for r in stream.run(cfg):
+                pass
+            del PROBE_LOG[:]
+            del RUN_LOG[:]
         gen = stream.run(cfg)
         for r in gen:
             results.append(r)
